@@ -550,7 +550,7 @@ Proof.
   destruct (rl <? 2) eqn:E0; [cbn; discriminate|].
   destruct src as [|a [|b r]]; try (exfalso; lens; lia).
   unfold publish_size. destruct (qos_of_n ((fb / 2) mod 4)) as [q| |]; cbn [bind]; try (cbn; discriminate).
-  match goal with |- context [Ok (Some ?h)] => set (hdr := h) end.
+  match goal with |- context [sub_chk rl ?h] => set (hdr := h) end.
   destruct (rl <? hdr) eqn:E1; [cbn; discriminate|].
   replace (len (a :: b :: r) <? hdr) with false by lia.
   rewrite sub_chk_ok by lia. destruct (split_at hdr (a :: b :: r)) as [hd src'].
